@@ -119,6 +119,11 @@ package quickfix
 
 //@ spec floatalphaTo(d []byte, k int) bool = forall i :: 0 <= i && i < k ==> (d[i] == 46 || d[i] == 45 || (48 <= d[i] && d[i] <= 57))
 //@ spec floatalpha(d []byte) bool = floatalphaTo(d, len(d))
+// the text is the plain decimal form (no exponent: the FIX grammar has none) with the fewest digits that read back
+// as the same float64 (precision -1, bit size 64: the round-trip guarantee of strconv)
+//@ func (f FIXFloat) Write [C14]
+//@   atcall FormatFloat @plain arg1 == 102 && arg2 == 0 - 1 && arg3 == 64
+
 //@ func (f *FIXFloat) Read [C09,C14]
 //@   ensures @accept (result == nil) <==> (floatalpha(bytes) && pfok(string(bytes)))
 //@   loop 1 invariant @alpha floatalphaTo(bytes, $i+1)
